@@ -23,10 +23,10 @@ A_TIME = [
     "time.Time is modelled in its real layout for values without a monotonic reading (wall = nanosecond, ext = seconds since year 1, loc = nil for UTC or a fixed-offset location); time.Date is exact up to one uninterpreted function days(year, month) (computed natively for concrete arguments); time.Unix normalises nanoseconds through fresh quotient/remainder variables; Unix/UnixNano/UnixMicro/UnixMilli/Nanosecond/IsZero/UTC/Equal/Zone/FixedZone follow their documented contracts",
 ]
 
-CAT = ("type catalogue: 94 struct types (every leaf kind bool/int/int16/int32/int64/float32/float64/string/[]byte x {field, omitempty field, pointer, "
+CAT = ("type catalogue: 106 struct types (every leaf kind bool/int/int16/int32/int64/float32/float64/string/[]byte x {field, omitempty field, pointer, "
        "slice element, map value}, tag variants (json name, '-', omitempty with other options, bq:\"-\", unexported), 25 depth-2 shapes incl. **T, *[]T, *map, "
        "[]*T, map[string]*T, [][]T, maps of slices/maps/structs, omitempty on pointer/slice/map, null.Int/Bool/Float/String in every position; time.Time and null.Time as field, omitempty field and behind a pointer, and - thorough tier - as slice element and map value, built from symbolic RFC 3339 digits with 0/3/9 fraction digits and Z or a numeric offset, their RFC3339Nano text bound to the value because Time.Format is not modelled); "
-       "values: all - integer fields and length prefixes in [-8192,8191] (1-2 byte varints; the full width is covered in C17 and the fit clause of C03), "
+       "scale group: strings and byte slices of 63/64/65/130 (thorough also 127/128/200) arbitrary bytes as field, omitempty field, slice element, map value and two in one record; []int64 and *[]int64 of 63/64/65/130 elements; []*int64 of 33/40/65 elements (resource-bank growth); slices of 0/1/9/70 zero-byte items; a 14-field record; full-width int/int32/int64 as field, omitempty field and behind a pointer; thorough: a 4-level nesting; values: all - integer fields and length prefixes in [-8192,8191] (1-2 byte varints; the full width is covered in C17 and the fit clause of C03), "
        "int16 and floats full width incl. NaN/Inf/-0; strings/bytes of 0..2 arbitrary bytes (non-UTF-8 included); collections 0..2 elements, nested collections 0..1 "
        "(thorough: 0..3 / 0..2), nil and empty both; map keys 1 byte, distinct; nil pointers at every level; loop unwinding 64")
 
@@ -61,14 +61,14 @@ P["C03"] = {
         {"pattern": "verifHarness_C0304_", "label_filter": "C03:"},
         {"pattern": "verifHarness_C07_intact", "label_filter": "C07:"}]},
     "thorough": {"validate": 16},
-    "bounds": "118 (writer type, target type) pairs: 28 catalogue types read into themselves; integer width (int64<->int/int32/int16, also inside slices/maps), float32 carried as double, pointer indirection (T<->*T<->**T, []T<->[]*T, struct<->*struct, []T->*[]T, map->*map), null.* wrappers vs plain and pointer targets, projections. The writer is the reference encoder with every writer-side freedom a solver variable: per array/map where the first block ends (1 or 2 blocks + terminator) and whether blocks carry a negative count and byte size; null first and null second in every nullable union. Values as C01. Fit clause: all 2^64 longs into int16 and int32 targets (error iff out of range). File level: every layout in {[1],[2,1],[1,1],[0,1]} (thorough +[2,2],[1,0,2],[0],[3]) x {null, deflate, snappy} through the real FileWriter and ReadFile",
+    "bounds": "129 (writer type, target type) pairs: 28 catalogue types and the 11 scale types (long strings/bytes, big and zero-size-item collections, many fields) read into themselves; integer width (int64<->int/int32/int16, also inside slices/maps), float32 carried as double, pointer indirection (T<->*T<->**T, []T<->[]*T, struct<->*struct, []T->*[]T, map->*map), null.* wrappers vs plain and pointer targets, projections. The writer is the reference encoder with every writer-side freedom a solver variable: per array/map where the first block ends (1 or 2 blocks + terminator) and whether blocks carry a negative count and byte size; null first and null second in every nullable union. Values as C01. Fit clause: all 2^64 longs into int16 and int32 targets (error iff out of range). File level: every layout in {[1],[2,1],[1,1],[0,1]} (thorough +[2,2],[1,0,2],[0],[3]) x {null, deflate, snappy} through the real FileWriter and ReadFile",
     "outside": "fixed / enum / multi-branch unions as data (see C05, C13); three or more blocks per collection; float64 data into float32 targets (narrowing is not an error in the library; not claimed)",
     "assumptions": A_CORE + A_FILE,
 }
 P["C04"] = {
     "common": {"validate": 4, "ignore_kinds": ["alloc", "unwind"], "runs": [{"pattern": "verifHarness_C0304_", "label_filter": "C04:"}]},
     "thorough": {"validate": 16},
-    "bounds": "same exploration as C03: for each of the 118 pairs the same bytes (incl. size-prefixed and two-block collections, unions, nested records) are decoded into the full target and into an empty struct (every field skipped): skipping must succeed and consume exactly everything; 9 projections of a 5-field record (permuted; each of slice/map/nested-record field deleted; only the last field kept; three fields added; nested fields deleted) keep the values of the remaining fields and leave added fields zero",
+    "bounds": "same exploration as C03: for each of the 129 pairs the same bytes (incl. size-prefixed and two-block collections, unions, nested records) are decoded into the full target and into an empty struct (every field skipped): skipping must succeed and consume exactly everything; 9 projections of a 5-field record (permuted; each of slice/map/nested-record field deleted; only the last field kept; three fields added; nested fields deleted) keep the values of the remaining fields and leave added fields zero",
     "outside": "invalid byte sizes (C06's subject); records of more than 5 fields; fixed",
     "assumptions": A_CORE,
 }
@@ -112,14 +112,14 @@ P["C08"] = {
 P["C09"] = {
     "common": {"validate": 6, "runs": [{"pattern": "verifHarness_C09_", "label_filter": "C09:"}]},
     "thorough": {"validate": 16},
-    "bounds": "(1) inductive step: from an ARBITRARY encoder state satisfying the invariant (count c in [0,2^40), 0..3 buffered bytes of arbitrary content, block size B >= 0 arbitrary, nothing buffered iff c == 0, buffered < B when c > 0) one Encode (record of 3-4 bytes) or one Flush: emitted bytes are nothing or exactly one block with count c(+1), payload = buffer (+ record) after decompression, followed by the sync marker; emitted iff (Encode and size reached) or (Flush and c > 0); invariant re-established; all three codecs - histories of any length follow by induction. (2) every history of 1..3 (thorough 1..4) encode/flush calls from a fresh encoder, block size in {0,4,7,100}, checked after every call with a reference block parser",
+    "bounds": "(1) inductive step: from an ARBITRARY encoder state satisfying the invariant (count c in [0,2^40), 0..3 buffered bytes of arbitrary content in a buffer of capacity exact/600/5000, block size B >= 0 arbitrary, nothing buffered iff c == 0, buffered < B when c > 0) one Encode (record of 3-4 bytes) or one Flush: emitted bytes are nothing or exactly one block with count c(+1), payload = buffer (+ record) after decompression, followed by the sync marker; emitted iff (Encode and size reached) or (Flush and c > 0); invariant re-established; all three codecs - histories of any length follow by induction. (2) every history of 1..3 (thorough 1..4) encode/flush calls from a fresh encoder, block size in {0,4,7,100}, checked after every call with a reference block parser",
     "outside": "buffers of more than 3 bytes in the step pre-state (the code never looks at buffer contents)",
     "assumptions": A_CORE + A_FILE,
 }
 P["C10"] = {
     "common": {"validate": 6, "runs": [{"pattern": "verifHarness_C10_", "label_filter": "C10:"}]},
     "thorough": {"validate": 16},
-    "bounds": "(1) allocator step from arbitrary bank states: see harness C10_bank_step (<= 2 type arenas with symbolic fill levels, string store with symbolic length, one Alloc / ToString / Close / Extract with arbitrary arguments): returned block inside a typed array, zeroed, disjoint from every live allocation; earlier strings never rewritten. (2) retained records: 3-block files of every codec, records {string, []byte, *int64, []string} with symbolic contents; each callback value is retained, the first record's bank is optionally closed while reading continues (so it may be recycled for the third record through the pool, both pool outcomes explored); at the end every retained record whose bank is open still holds its values and no string/bytes pointer leads into the reader's buffers",
+    "bounds": "(1) allocator step from arbitrary bank states: see harness C10_bank_step (<= 2 type arenas with symbolic fill levels, string store with symbolic length, one Alloc / ToString / Close / Extract with arbitrary arguments): returned block inside a typed array, zeroed, disjoint from every live allocation; earlier strings never rewritten. (2) retained records: 3-block files of every codec, records {string of 2 or 130 bytes, []byte, *int64, []string, map[string]string} with symbolic contents; each callback value is retained, the first record's bank is optionally closed while reading continues (so it may be recycled for the third record through the pool, both pool outcomes explored); at the end every retained record whose bank is open still holds its values and no string/bytes pointer leads into the reader's buffers",
     "outside": "the Go allocator and collector themselves; more than 3 records; bank states with more than 2 type arenas",
     "assumptions": A_CORE + A_FILE,
 }
